@@ -407,6 +407,19 @@ __visible_default void _Unwind_Resume(void *exception)
 	if (!check_thread_data(mtdp)) {
 		pr_dbg2("%s: exception resumed on [%d]\n", __func__, mtdp->idx);
 
+		/*
+		 * The frames unwound so far are gone but their rstack entries
+		 * stay until the exception is caught.  The cleanup pad calls us
+		 * at the same stack depth as it called the unwound child, so
+		 * such an entry can name our own return address slot: drop the
+		 * dead entries before mcount_rstack_restore() writes to them.
+		 */
+		if (mtdp->in_exception) {
+			unsigned long *frame_ptr = __builtin_frame_address(0);
+
+			mcount_rstack_rehook_exception(mtdp, (unsigned long)(frame_ptr + 1));
+		}
+
 		mtdp->in_exception = true;
 
 		/*
